@@ -73,8 +73,11 @@ POOL_NI = [
     ("plain", "{ num color }", None, None, {}, 2, "scn"),
     ("plain-nested", "{ a { id } num }", None, None, {}, 1, "scn"),
     ("typename-only", "{ __typename num }", None, None, {}, 1, "scn"),
+    ("invalid-enum-variable-many-close-names", "query($g: Shade) { shade(s: $g) num }", None, {"g": "GREY"}, {}, 1, "scn"),
+    ("invalid-enum-variable-other-value", "query($g: [Shade]) { shades(s: $g) }", None, {"g": ["GREY_", "DARC"]}, {}, 1, "scn"),
 ]
-NI_SDL = seeds.K_SDL + "\nschema @nonIntrospectable { query: Query mutation: Mutation subscription: Subscription }\n"
+NI_SDL = (seeds.K_SDL + "\nschema @nonIntrospectable { query: Query mutation: Mutation subscription: Subscription }\n"
+          + "enum Shade { GREY_1 GREY_2 GREY_3 GREY_4 DARK }\nextend type Query { shade(s: Shade): String shades(s: [Shade]): String }\n")
 NI_KW = {"sdl": NI_SDL, "typecfg": {"resolver_kwargs_all": {"parent_concurrently": False}}}
 COERCER_SCHED = [None]
 
